@@ -721,11 +721,16 @@ pub fn c09_grid(ctx: &Ctx) -> SearchReport {
         rep.stats.labels.insert("flaky:passed_on_rerun".to_string(), d.3);
     }
     if let Some((m, c)) = failure.lock().unwrap().take() {
-        rep.failure = Some(Failure {
-            message: m,
-            case: c,
-            hang: false,
-        });
+        if m.contains("INFRA:") {
+            // the harness could not set the cell up (no port, ...): inconclusive, not a violation
+            rep.health_errors.push(format!("c09_grid: {}", m));
+        } else {
+            rep.failure = Some(Failure {
+                message: m,
+                case: c,
+                hang: false,
+            });
+        }
     } else {
         rep.exhaustive = true;
     }
@@ -882,6 +887,10 @@ pub fn c09_openssl(ctx: &Ctx) -> SearchReport {
                         rep.stats.samples.push(c.json());
                     }
                 }
+            }
+            Err(m) if m.contains("INFRA:") => {
+                rep.health_errors.push(format!("c09_openssl_peer: {}", m));
+                return rep;
             }
             Err(m) => {
                 rep.failure = Some(Failure {
